@@ -196,7 +196,8 @@ Proof.
   cbn [plain sm_msg sm_reply sm_id wants_success wants_error].
   assert (Hh : handle w FM sender [] (WFm (FmCloseFarm id)) =
                Ok (set_fm w (fst (close_farms (w_fm w) [f])), snd (close_farms (w_fm w) [f]))).
-  { unfold handle. cbn [String.eqb EM FC PM FM Ascii.eqb Bool.eqb fm_execute]. unfold close_farm.
+  { unfold handle. cbn [coins_ok forallb wmsg_ok andb]. unfold handle_typed.
+    cbn [String.eqb EM FC PM FM Ascii.eqb Bool.eqb fm_execute]. unfold close_farm.
     cbn [nonpayable bind]. rewrite Hf. cbn [of_option bind].
     assert (Ha : (String.eqb (f_owner f) sender || is_owner (fm_own (w_fm w)) sender) = true).
     { destruct Hauth as [<-|Ho]; [rewrite String.eqb_refl; reflexivity|].
